@@ -2,8 +2,18 @@
 open Rp
 let runs : (string * (n list -> n list)) list = [
   "EV", run_EV;
+  "DEC", run_DEC;
+  "AMB", run_AMB;
 ]
 let twos : (string * (n list -> n list -> n list)) list = [
   "view_C03", view_C03;
   "ok_C03", ok_C03;
+  "view_C05", view_C05;
+  "ok_C05", ok_C05;
+  "view_C11_DEC", view_C11_DEC;
+  "ok_C11_DEC", ok_C11_DEC;
+  "view_C11_EV", view_C11_EV;
+  "ok_C11_EV", ok_C11_EV;
+  "view_C12", view_C12;
+  "ok_C12", ok_C12;
 ]
